@@ -615,7 +615,7 @@ def final_oracles(sc, res):
             arr = byid[p].aft + t.io[p] / m.bandwidth
             if arr > want:
                 want = arr
-        if t.ast != want:
+        if abs(t.ast - want) > 1e-9:          # fractional transfer times: now + (arrival - now) may differ from arrival by an ulp
             mon.tag('C03/start-not-max-of-allocation-and-arrivals')
         extra = mon.extras.get(t.id, 0)
         if t.flops > 0 or t.task_data > 0:
@@ -623,7 +623,7 @@ def final_oracles(sc, res):
         else:
             nominal = t.duration
         runt = t.aft - t.ast
-        if runt < max(1, nominal + extra) or runt > max(1, nominal) + extra:
+        if runt < max(1, nominal + extra) - 1e-9 or runt > max(1, nominal) + extra + 1e-9:
             mon.tag('C06/recorded-runtime-differs')
         if extra > 0 and not t.delay_flag:
             mon.tag('C15/delay-added-but-task-not-flagged')
@@ -708,6 +708,24 @@ def outputs(sim):
     return dict(events=ev, table=df, tasks=tasks, state=state)
 
 
+def plain_outputs(sim):
+    """outputs in a representation that does not depend on which table implementation (pandas / stub) produced them"""
+    def rows_of(df):
+        if hasattr(df, 'rows'):
+            return [dict(r) for r in df.rows], list(df.cols)
+        return df.to_dict('records'), list(df.columns)
+    trows, tcols = rows_of(sim.monitor.df)
+    table = [sorted((str(k), None if v != v else v) for k, v in r.items() if not str(k).endswith('algtime')) for r in trows]
+    erows, _ = rows_of(sim.monitor.events)
+    events = [[e['time'], e['actor'], e['observation'], e['event'], e['resource']] for e in erows]
+    tk = sim._generate_final_task_data()
+    if hasattr(tk, 'rows'):
+        tasks = sorted([str(c)] + sorted((str(i), r.get(c)) for i, r in zip(tk.index or [], tk.rows)) for c in tk.cols if c not in ('scheduling', 'planning', 'config'))
+    else:
+        tasks = sorted([str(c)] + sorted((str(i), tk.loc[i, c]) for i in tk.index) for c in tk.columns if c not in ('scheduling', 'planning', 'config'))
+    return json.loads(json.dumps(dict(table=table, events=events, tasks=tasks), default=lambda o: o.item() if hasattr(o, 'item') else str(o)))
+
+
 def run_public(sc, segments):
     """Simulation.start(runtime=segments[0]) followed by resume(until=s) for the remaining segment ends"""
     global CUR
@@ -728,3 +746,32 @@ def scenario_tag(sc, props):
     if not feasible(sc):
         return 'HARNESS/infeasible-scenario'
     return first_tag(run(sc), props)
+
+
+def validate_fakepd(spec=None):
+    """py-job: the pandas stub against real pandas on concrete simulations, all cells of the step table, the task table
+    and the event log (translation validation of E4; no solver involved)"""
+    import subprocess, sys
+    scs = []
+    for alg, segs in ((dict(kind='batch', parts=1, min=1), '20'), (dict(kind='queue'), '3,9,20')):
+        scs.append((dict(machines=[10, 10, 20], bw=5, max_ingest=2, arrays=4, hot=1000, cold=1000, hot_rate=100, cold_rate=100,
+                         obs=[dict(start=0, dur=2, arrays=1, ingest=1, rate=5), dict(start=1, dur=2, arrays=1, ingest=2, rate=7)],
+                         graphs=[dict(n=3, edges=[[0, 1, 5], [0, 2, 10]], durs=[1, 2, 0])], alg=alg, delays=[1, 0]), segs))
+    n = 0
+    env = dict(os.environ, VK_REAL_PANDAS='1')
+    for sc, segs in scs:
+        p = subprocess.run([sys.executable, '-m', 'vk.realpd', json.dumps(sc), segs], capture_output=True, text=True, env=env, cwd='/verif')
+        real = None
+        for line in p.stdout.splitlines():
+            if line.startswith('OUT '):
+                real = json.loads(line[4:])
+        if real is None:
+            return {'status': 'ERROR', 'error': 'real-pandas run failed: ' + (p.stderr or p.stdout)[-1500:]}
+        mine = plain_outputs(run_public(sc, [int(x) for x in segs.split(',')]))
+        for key in ('table', 'events', 'tasks'):
+            if mine[key] != real[key]:
+                diff = [(a, b) for a, b in zip(mine[key], real[key]) if a != b][:2]
+                return {'status': 'ERROR', 'error': f'pandas stub differs from real pandas in {key}: {diff} (lengths {len(mine[key])}/{len(real[key])})'}
+        n += len(real['table']) + len(real['events']) + len(real['tasks'])
+    return {'status': 'CONFIRMED', 'paths': len(scs), 'queries': 0, 'validated': n, 'detail': f'pandas stub == real pandas on {n} rows of 2 simulations (one paused twice)',
+            'witnesses': [{'stub_validation_rows': n}]}
